@@ -139,6 +139,17 @@ func c39Render(p string, idx int, s c39Snip) string {
 	case "sharedset":
 		// concurrent assignments to one variable: the last one wins, whichever it is
 		return "var " + n + "v = -1; peach {|x| set " + n + "v = $x } [(range " + A + ")]; put (< $" + n + "v " + A + ") (>= $" + n + "v 0)"
+	case "sharedrw":
+		// one variable read and assigned by several callbacks at the same time:
+		// every read sees some assigned value
+		return "var " + n + "w = 0; peach {|x| set " + n + "w = $x; put (>= $" + n + "w 0) } [(range " + A + ")] | count; put (< $" + n + "w " + A + ")"
+	case "gone":
+		// readers that exit while the writer still has more than a channel
+		// buffer of values to deliver
+		return "put [(range (+ 100 " + A + ") | each {|x| put $x } | take " + B + ")]; range (+ 150 " + A + ") | nop; put " + n + "gone"
+	case "special":
+		// the interpreter's own variables, shared by every evaluation
+		return "put $value-out-indicator $notify-bg-job-success (kind-of $num-bg-jobs) (kind-of $pwd)"
 	case "dellocal":
 		return "{ var d = " + A + "; del d; var d = " + B + "; put $d }"
 	case "try":
@@ -484,7 +495,7 @@ func c39FinalOf(ev *eval.Evaler, g int, ops []c39Op) string {
 // ---- generator ------------------------------------------------------------------------------------
 
 var c39SnipKinds = []string{"arith", "loop", "fn", "map", "list", "peach", "peachb", "runpar", "pipe", "bytes",
-	"use", "use", "use", "uselocal", "uselocal", "closure", "tmp", "del", "try", "str", "eval", "shared", "sharedset", "bg", "bg"}
+	"use", "use", "use", "uselocal", "uselocal", "closure", "tmp", "del", "try", "str", "eval", "shared", "sharedset", "bg", "bg", "sharedrw", "sharedrw", "gone", "gone", "special"}
 
 func c39GenSnip(t *rapid.T) c39Snip {
 	return c39Snip{
@@ -624,7 +635,7 @@ func init() {
 	eight = append(eight, []c39Op{{Kind: "check", Src: "setup"}, {Kind: "check", Src: "undef"}, {Kind: "check", Src: "own"}})
 	vs.Register(vs.Prop[c39Case]{
 		Name: "C39/concurrent",
-		Rule: "2..8 goroutines x 1..3 operations on one Evaler: Eval of 1-4 snippets (arithmetic, loops, fn, map/list assignment, closures, tmp, del, try, eval, str:, peach, bounded peach, run-parallel, pipelines with byte and value stages, `use` of one of 8 temp modules at top level or inside a lambda - m7 imports m6), Call of a set-up function (one of them runs peach), Check of valid / undefined-variable / unparsable sources; every program writes only globals with its goroutine's prefix; later programs of a goroutine read the globals of its earlier ones; GOMAXPROCS in {2,4,8,16}; module bodies optionally yield. Runs on the -race binary. Left out while open: two goroutines importing the same not-yet-loaded module (it is preloaded by the set-up instead). Non-trivial = every case (>= 2 goroutines)",
+		Rule: "2..8 goroutines x 1..3 operations on one Evaler: Eval of 1-4 snippets (arithmetic, loops, fn, map/list assignment, closures, tmp, del, try, eval, str:, peach, bounded peach, run-parallel, one variable read and assigned by all callbacks of a peach, pipelines with byte and value stages, pipelines whose reader exits with more than a buffer of values outstanding, reads of the interpreter's own variables, `use` of one of 8 temp modules at top level or inside a lambda - m7 imports m6), Call of a set-up function (one of them runs peach), Check of valid / undefined-variable / unparsable sources; every program writes only globals with its goroutine's prefix; later programs of a goroutine read the globals of its earlier ones; GOMAXPROCS in {2,4,8,16}; module bodies optionally yield. Runs on the -race binary. Left out while open: two goroutines importing the same not-yet-loaded module (it is preloaded by the set-up instead). Non-trivial = every case (>= 2 goroutines)",
 		Gen:  c39Gen, Check: c39Check, Class: c39Class,
 		Quick: 110, Thorough: 1200, Timeout: 90 * time.Second, Race: true,
 		Known: []vs.Known[c39Case]{
